@@ -2,7 +2,6 @@
 package main
 
 import (
-	"errors"
 	"fmt"
 	"time"
 
@@ -76,9 +75,6 @@ func probeAdjacent(a ymd) (string, string) {
 	}
 	if v, err := d.Value(); err != nil || v != any(t) {
 		return "value", fmt.Sprintf("%v.Value() = %v, %v", d, v, err)
-	}
-	if d.IsZero() != (a == ymd{1, 1, 1}) {
-		return "iszero", fmt.Sprintf("%v.IsZero() = %v", d, d.IsZero())
 	}
 	return "", ""
 }
@@ -192,13 +188,6 @@ func probeFromTime(p timeArg) (string, string) {
 	if err := s.Scan(t); err != nil || !is(s, want) {
 		return "scan_time", fmt.Sprintf("Scan(%v) = %v, %v want %v", t, s, err, want)
 	}
-	for _, src := range []any{nil, "2020-01-01", []byte("2020-01-01"), int64(5), &t} {
-		s2 := date.New(1999, 12, 31)
-		err := s2.Scan(src)
-		if err == nil || !errors.Is(err, date.ErrInvalidType) || s2 != date.New(1999, 12, 31) {
-			return "scan_wrong_type", fmt.Sprintf("Scan(%T) = %v, receiver %v", src, err, s2)
-		}
-	}
 	return "", ""
 }
 
@@ -230,7 +219,7 @@ func main() {
 		r.Assume("reference: day ordinals from the arithmetic definition of the proleptic Gregorian calendar (oracle.Ordinal/FromOrdinal), AddDate-style normalisation (months carried into years, day offset through ordinals), floor division for negative durations; package time is used only to construct the time.Time inputs handed to the library")
 		r.Assume("Sub/DaysBetween are only judged for |difference| <= 106751 days (time.Duration range)")
 
-		r.Phase("every date of years 0000-9999 with its successor: order, Sub, DaysBetween, Add(+-1 day), AddDuration(+-24h), Time, Value, IsZero", "complete", func() {
+		r.Phase("every date of years 0000-9999 with its successor: order, Sub, DaysBetween, Add(+-1 day), AddDuration(+-24h), Time, Value", "complete", func() {
 			r.Parallel(10000, 8, func(w *mc.W, y int64) {
 				for m := 1; m <= 12; m++ {
 					dim := oracle.DaysIn(y, m)
